@@ -6,13 +6,55 @@
   base node equal the first m answers (and interleaved outputs) of `Spec.step` iterated from
   `Spec.init`; once the machine's stack is empty every further call returns none.
   That refinement is decided on every run by comparing implementation, engine model and reference
-  machine on generated programs.  Proved below (`_partial`): the facts the statement's last two
-  sentences rest on.
+  machine on generated programs.  Proved below (`_partial`):
+    * SOUNDNESS, for every knowledge base, query, number of requests and fuel: every answer the
+      engine returns — at the first request or at any later one, whatever cuts, disjunctions,
+      negations ran in between — is an answer of SLD resolution in the declarative sense of
+      `Spec/SLD.lean` (some clause, renamed apart, whose head unifies with the goal and whose
+      body is answered in turn, left to right): `answers_are_derivable_partial`;
+    * the facts the statement's last two sentences rest on (no leakage between alternatives,
+      answer formatting).
+  NOT proved: completeness, order and multiplicity (the other half of the refinement).
 -/
 import SuironVerif.Model.Solve
 import SuironVerif.Spec.Machine
 import SuironVerif.Lemmas.Exhausted
+import SuironVerif.Lemmas.EngineSound
 namespace Suiron.C01
+
+/-- the answers of a sequence of requests on one query (one fuel value per request) -/
+def askN (fo : FloatOps) (kb : KB) : List Nat → Node → G → List (Option Subst)
+  | [], _, _ => []
+  | f :: fs, node, g =>
+    match next fo kb f node g with
+    | .ok st => st.sol :: askN fo kb fs st.node st.g
+    | _ => []
+
+theorem askN_sound (fo : FloatOps) (kb : KB) : ∀ (fs : List Nat) (node : Node) (g : G) (P : Subst → Prop),
+    Spec.NodeSound fo kb node P → ∀ σ', some σ' ∈ askN fo kb fs node g → P σ' := by
+  intro fs
+  induction fs with
+  | nil => intro node g P _ σ' h; simp [askN] at h
+  | cons f fs ih =>
+    intro node g P hs σ' h
+    simp only [askN] at h
+    cases hn : next fo kb f node g with
+    | ok st =>
+      rw [hn] at h
+      have := (Spec.next_sound fo kb f).1 node g st P hs hn
+      rcases List.mem_cons.mp h with h1 | h2
+      · exact this.1 σ' h1.symm
+      · exact ih st.node st.g P this.2 σ' h2
+    | fail => rw [hn] at h; simp at h
+    | panic => rw [hn] at h; simp at h
+    | oof => rw [hn] at h; simp at h
+
+/-- SOUNDNESS: every answer returned by any request on the base node of a query is an SLD answer of
+    the query from the substitution set the query was started with. -/
+theorem answers_are_derivable_partial (fo : FloatOps) (kb : KB) (q : Term) (σ0 : Subst) (g0 g1 : G) (node : Node)
+    (hmk : mkNode fo.showF kb (.call q) σ0 g0 = .ok (node, g1)) (fs : List Nat) (σ' : Subst)
+    (h : some σ' ∈ askN fo kb fs node g1) : Spec.Derives fo kb (.call q) σ0 σ' :=
+  askN_sound fo kb fs node g1 _ (Spec.mkNode_sound fo kb _ σ0 g0 node g1 _ hmk (fun _ h => h)) σ' h
 
 /-- bindings of an abandoned alternative cannot leak: the substitution set a node was created with
     is never modified by any request on it (every alternative starts again from that very set). -/
